@@ -144,6 +144,20 @@ def _child_history(d: str, hist: list[str], kill_at, mode: str, logfd: int) -> N
 
     try:
         with fakesnow.patch(db_path=d):
+            if "E" in hist:
+                # the session lives in `with connect(...) as conn:` / `with conn.cursor() as cur:` blocks; `E` = the blocks end
+                e = hist.index("E")
+                os.write(logfd, b"#0:")
+                with snowflake.connector.connect(database="db1", schema="s" + hist[0].split(".")[1]) as conn:
+                    with conn.cursor() as cur:
+                        for i, s in enumerate(hist[1:e], 1):
+                            os.write(logfd, f"#{i}:".encode())
+                            cur.execute(_sql(s))
+                            cur.fetchall()
+                        if mode == "raise-inside":
+                            raise Boom("application error inside the with block")
+                os.write(logfd, f"#{e}:".encode())
+                hist = []
             cur = None
             for i, s in enumerate(hist):
                 os.write(logfd, f"#{i}:".encode())
@@ -157,6 +171,8 @@ def _child_history(d: str, hist: list[str], kill_at, mode: str, logfd: int) -> N
             os.write(logfd, b"#end:")
             if mode == "raise":
                 raise Boom("application error")
+            if mode == "killend":
+                os.kill(os.getpid(), signal.SIGKILL)
     except Boom:
         pass
     os.write(logfd, b"#exit")
@@ -191,6 +207,55 @@ def _child_dump(d: str, schema_opt: bool, outfd: int) -> None:
         cur.execute("select table_name from information_schema.views where table_catalog = 'DB1'")
         out["views"] = sorted(int(r[0][2:]) for r in cur.fetchall())
     os.write(outfd, json.dumps(out).encode())
+
+
+def _child_repatch(d: str, spec: dict, outfd: int) -> None:
+    """same process: a patch(db_path) block is left by an exception while a connection object stays referenced; a second
+    patch on the same path commits more; the stale object is dropped (gc); then the process ends"""
+    import gc
+    import fakesnow
+    import snowflake.connector
+    keep = []
+
+    class Boom(Exception):
+        pass
+
+    try:
+        with fakesnow.patch(db_path=d):
+            conn = snowflake.connector.connect(database="db1", schema="s1")
+            keep.append(conn)
+            keep.append(conn.cursor())
+            for s in spec["h1"][1:]:
+                keep[1].execute(_sql(s))
+            raise Boom("application error")
+    except Boom:
+        pass
+    with fakesnow.patch(db_path=d):
+        c2 = snowflake.connector.connect(database="db1", schema="s1")
+        cur = c2.cursor()
+        for s in spec["h2"][1:]:
+            cur.execute(_sql(s))
+    del c2, cur
+    keep.clear()
+    gc.collect()
+    os.write(outfd, b"done")
+    if spec["exit"] == "kill":
+        os.kill(os.getpid(), signal.SIGKILL)
+
+
+def _run_repatch(job) -> dict:
+    d = tempfile.mkdtemp(prefix="c18-")
+    try:
+        status, raw = _fork(_child_repatch, d, job["spec"])
+        text = raw.decode(errors="replace")
+        if "!EXC" in text or "done" not in text:
+            return {"err": text[-400:], "status": status}
+        st, out = _fork(_child_dump, d, False)
+        if st != 0 or b"!EXC" in out:
+            return {"dump_err": out.decode(errors="replace")[-400:]}
+        return {"dump": json.loads(out.decode())}
+    finally:
+        shutil.rmtree(d, ignore_errors=True)
 
 
 def _child_conflict(d: str, spec: dict, outfd: int) -> None:
@@ -376,7 +441,8 @@ def _worker(shard):
     import fakesnow.instance  # noqa: F401
     import pyarrow  # noqa: F401
     import snowflake.connector  # noqa: F401
-    return [(_run_memory(j) if j["mode"] == "memory" else _run_conflict(j) if j["mode"] == "conflict" else _run_point(j)) for j in shard]
+    return [(_run_memory(j) if j["mode"] == "memory" else _run_conflict(j) if j["mode"] == "conflict" else _run_repatch(j) if j["mode"] == "repatch" else _run_point(j))
+            for j in shard]
 
 
 # ------------------------------------------------------------------------------------------------
@@ -506,12 +572,25 @@ def run(chk) -> None:
                 "insert_order": rnd.choice([["a", "b"], ["b", "a"]]), "commit_order": [first, "b" if first == "a" else "a"],
                 "api": ci % 2 == 0, "after": {"a": 71, "b": 72}, "exit": "kill" if ci % 3 else "clean"}
         jobs1.append({"hi": -1, "mode": "conflict", "spec": spec})
+    # `with connect(...) as conn:` / `with conn.cursor():` blocks that end with a transaction still open, all process endings
+    WITH = [["N11.1", "T0.-.-", "b", "i0.1.1", "i0.2.2", "E"],
+            ["N11.1", "T0.7.10", "i0.1.1", "b", "u0.1.5", "M0.3", "E"],
+            ["N11.1", "T0.-.-", "b", "i0.1.1", "c", "b", "d0.1", "T1.-.-", "E"]]
+    for wh in WITH:
+        for mode in ("clean", "raise", "killend", "raise-inside"):
+            jobs1.append({"hi": -1, "hist": wh, "kill": None, "mode": mode, "schema_opt": False})
+    # same process: patch block left by an exception (connection kept alive), re-patch on the same path, drop the old object
+    for ri in range(2 if quick else 6):
+        jobs1.append({"hi": -1, "mode": "repatch",
+                      "spec": {"h1": ["N11.1", "T0.-.-", f"i0.1.{ri}"], "h2": ["N11.1", f"i0.2.{ri}", "T1.3.-", "i1.5.5"],
+                               "exit": "kill" if ri % 2 else "clean"}})
     jobs1.append({"hi": 0, "hist": hists[0], "mode": "memory"})
     jobs1.append({"hi": 0, "hist": hists[2], "mode": "memory"})
     res1 = [r for shard in common.shard_map(_worker, common.chunks(jobs1, 16)) for r in shard]
     res1 = dict(zip([id(j) for shard in common.chunks(jobs1, 16) for j in shard], res1))
     totals, firstlen = {}, {}
     conflicts = []
+    repatches = []
     for j in jobs1:
         r = res1[id(j)]
         if j["mode"] == "memory":
@@ -519,6 +598,9 @@ def run(chk) -> None:
             continue
         if j["mode"] == "conflict":
             conflicts.append((j, r))
+            continue
+        if j["mode"] == "repatch":
+            repatches.append((j, r))
             continue
         if j["mode"] == "clean":
             totals[j["hi"]] = sum(len(c) for c in r["calls"])
@@ -560,11 +642,15 @@ def run(chk) -> None:
         creps = common.batch(["\t".join(["crash", "run", ";".join(_conflict_history(j["spec"])), "-"]) for j, _ in conflicts])
         for (j, r), rep in zip(conflicts, creps):
             _check_conflict(chk, j, r, rep)
-    all_jobs = [(j, res1[id(j)]) for j in jobs1 if j["mode"] not in ("memory", "conflict")] + list(zip(order2, res2_flat))
+    if repatches:
+        rreps = common.batch(["\t".join(["crash", "run2", ";".join(j["spec"]["h1"]), "-", ";".join(j["spec"]["h2"]), "-"]) for j, _ in repatches])
+        for (j, r), rep in zip(repatches, rreps):
+            _check_repatch(chk, j, r, rep)
+    all_jobs = [(j, res1[id(j)]) for j in jobs1 if j["mode"] not in ("memory", "conflict", "repatch")] + list(zip(order2, res2_flat))
     lines = []
     for j, r in all_jobs:
         h = ";".join(j["hist"])
-        if j["mode"] in ("clean", "raise"):
+        if j["mode"] in ("clean", "raise", "killend", "raise-inside"):
             lines.append("\t".join(["crash", "run", h, "-"]))
         elif j["mode"] == "kill":
             lines.append("\t".join(["crash", "run", h, _addr(r["calls"])]))
@@ -583,6 +669,24 @@ def run(chk) -> None:
                        "ATTACH / CREATE DATABASE are not placed inside explicit transactions (ATTACH is not transactional in DuckDB)"]
     chk.trusted += ["DuckDB WAL/fsync durability and atomicity of one engine call; an auto-committed call is durable when execute() returns; "
                     "BEGIN..COMMIT is durable at COMMIT; ATTACH creates the database file at once; the OS"]
+
+
+def _check_repatch(chk, job, r, rep) -> None:
+    spec = job["spec"]
+    case = {"kind": "repatch", "spec": spec}
+    chk.case(("repatch", json.dumps(spec, sort_keys=True)), nontrivial=True, sample=case)
+    chk.count("mode:repatch")
+    if "err" in r:
+        raise common.Infra(f"repatch child failed: {r}")
+    desc = (f"one process: patch(db_path) block running {spec['h1']} left by an exception with the connection still referenced, second "
+            f"patch(db_path) on the same path running {spec['h2']}, old connection dropped, process {spec['exit']}")
+    if "dump_err" in r:
+        chk.violation(f"{desc}: the directory cannot be opened afterwards: {r['dump_err']}", case, broken="C18_committed_survive (recover)")
+        return
+    real, impl = _canon_real(r["dump"], False), _canon_model(rep["impl"])
+    if real != impl:
+        chk.violation(f"{desc}: a later process finds {real} but both sessions committed {impl}", case,
+                      broken="C18_committed_survive / C18_durable_monotone (exception exit from patch(), then re-patch in the same process)")
 
 
 def _conflict_history(spec) -> list[str]:
@@ -656,8 +760,10 @@ def _check_point(chk, job, r, rep) -> None:
                       case, broken="C18_committed_survive (recover)")
         return
     killed = os.WIFSIGNALED(r["status"]) and os.WTERMSIG(r["status"]) == signal.SIGKILL
-    if mode in ("clean", "raise") and (not r["exited"] or r["err"] or r["status"] != 0):
+    if mode in ("clean", "raise", "raise-inside") and (not r["exited"] or r["err"] or r["status"] != 0):
         raise common.Infra(f"child did not finish history {job['hist']}: status={r['status']} err={r['err']} calls={r['calls']}")
+    if mode == "killend" and not killed:
+        raise common.Infra(f"child was not killed at the end: status={r['status']} err={r['err']}")
     if mode in ("kill", "kill2") and not killed and not r["exited"]:
         raise common.Infra(f"child neither killed nor finished: status={r['status']} err={r['err']}")
     chk.case((tuple(job["hist"]), mode, job.get("kill"), job.get("schema_opt")), nontrivial=True,
@@ -714,6 +820,12 @@ def _check_point(chk, job, r, rep) -> None:
 
 
 def replay(chk, case) -> None:
+    if case["kind"] == "repatch":
+        job = {"mode": "repatch", "spec": case["spec"]}
+        r = _run_repatch(job)
+        rep = common.batch(["\t".join(["crash", "run2", ";".join(case["spec"]["h1"]), "-", ";".join(case["spec"]["h2"]), "-"])])[0]
+        _check_repatch(chk, job, r, rep)
+        return
     if case["kind"] == "conflict":
         job = {"mode": "conflict", "spec": case["spec"]}
         r = _run_conflict(job)
